@@ -81,7 +81,6 @@ theorem vandermonde_box (ns : List ℕ) (t : ℕ) :
       rw [if_neg h']
 
 
-open Finset
 
 theorem hypW_eq (ns : List ℕ) (c : Idx) :
     hypW ns c = (prodN (List.zipWith Nat.choose ns c) : ℚ) / (ns.sum.choose c.sum : ℚ) := by
